@@ -700,10 +700,6 @@ def set_configs_directory(args):
     args.index_config_path = os.path.join(config_dir, 'index_config.json')
     args.bed_config_path = os.path.join(config_dir, 'bed_config.json')
     args.alignment_config_path = os.path.join(config_dir, 'alignment_config.json')
-    for config_path in (args.db_config_path, args.index_config_path, args.bed_config_path, args.alignment_config_path):
-        if not os.path.exists(config_path):
-            with open(config_path, 'w') as f_out:
-                json.dump({}, f_out)
 
 
 def set_additional_params(args):
